@@ -387,6 +387,9 @@ var totalDecoders = map[string]func(f Fields) error{
 		if err != nil {
 			return err
 		}
+		if f["acc"] == "0" {
+			return nil
+		}
 		totalUseGtab(info)
 		return nil
 	},
@@ -647,6 +650,14 @@ func totalAdversary(f Fields) (dec string, b []byte) {
 			k = len(b)
 		}
 		return "cff", b[:len(b)-k]
+	case "scriptlist-alias": // builder in area_total_gtablists.go
+		return "gsub", totalGtablistsAliased(num("s", 3), num("l", 4), num("f", 5), true)
+	case "gsub81-alias":
+		return "gsub", totalGsub81Aliased(num("nb", 2), num("nl", 2))
+	case "gpos21-alias":
+		return "gpos", totalGpos21Aliased(num("k", 4))
+	case "chain3-alias":
+		return "gsub", totalChain3Aliased(num("k", 2))
 	case "t2-nested-gsubrs": // §9 #26
 		gs, g1 := totalT2Bomb(num("levels", 4), num("calls", 12))
 		return "cff", totalCffRebuild(cffSeed(), gs, g1, -1)
@@ -2167,6 +2178,76 @@ func totalGdefDistinct(sets, last int) []byte {
 	return b
 }
 
+// totalGtabWrap: a GSUB/GPOS table with empty script and feature lists and ONE lookup of the given type
+// holding the given subtable.
+func totalGtabWrap(ltype int, sub []byte) []byte {
+	b := []byte{0, 1, 0, 0, 0, 10, 0, 12, 0, 14, 0, 0, 0, 0, 0, 1, 0, 4}
+	b = append(b, totalBe16b(ltype)...)
+	b = append(b, 0, 0, 0, 1, 0, 8)
+	return append(b, sub...)
+}
+
+// totalGsub81Aliased: GSUB 8.1 whose nb backtrack and nl lookahead coverage offsets all point at ONE
+// 10-byte coverage table 0..65535.
+func totalGsub81Aliased(nb, nl int) []byte {
+	hdr := 2 + 2 + 2 + 2*nb + 2 + 2*nl + 2 + 2
+	small := hdr   // input coverage (one glyph)
+	big := hdr + 6 // shared coverage
+	st := []byte{0, 1}
+	st = append(st, totalBe16b(small)...)
+	st = append(st, totalBe16b(nb)...)
+	for i := 0; i < nb; i++ {
+		st = append(st, totalBe16b(big)...)
+	}
+	st = append(st, totalBe16b(nl)...)
+	for i := 0; i < nl; i++ {
+		st = append(st, totalBe16b(big)...)
+	}
+	st = append(st, 0, 1, 0, 7)
+	st = append(st, 0, 1, 0, 1, 0, 5)
+	st = append(st, 0, 2, 0, 1, 0, 0, 0xff, 0xff, 0, 0)
+	return totalGtabWrap(8, st)
+}
+
+// totalGpos21Aliased: GPOS 2.1 with k pair-set offsets all pointing at ONE pair set of k records
+// (value formats 0), coverage = one range of k glyphs.
+func totalGpos21Aliased(k int) []byte {
+	setOff := 10 + 2*k
+	covOff := setOff + 2 + 2*k
+	st := []byte{0, 1}
+	st = append(st, totalBe16b(covOff)...)
+	st = append(st, 0, 0, 0, 0)
+	st = append(st, totalBe16b(k)...)
+	for i := 0; i < k; i++ {
+		st = append(st, totalBe16b(setOff)...)
+	}
+	st = append(st, totalBe16b(k)...)
+	for i := 0; i < k; i++ {
+		st = append(st, totalBe16b(i+1)...)
+	}
+	st = append(st, 0, 2, 0, 1, 0, 0)
+	st = append(st, totalBe16b(k-1)...)
+	st = append(st, 0, 0)
+	return totalGtabWrap(2, st)
+}
+
+// totalChain3Aliased: chained context format 3 with k backtrack coverage offsets all pointing at ONE
+// 10-byte coverage table 0..65535.
+func totalChain3Aliased(k int) []byte {
+	hdr := 2 + 2 + 2*k + 2 + 2 + 2 + 2
+	st := []byte{0, 3}
+	st = append(st, totalBe16b(k)...)
+	for i := 0; i < k; i++ {
+		st = append(st, totalBe16b(hdr+6)...)
+	}
+	st = append(st, 0, 1)
+	st = append(st, totalBe16b(hdr)...)
+	st = append(st, 0, 0, 0, 0)
+	st = append(st, 0, 1, 0, 1, 0, 5)
+	st = append(st, 0, 2, 0, 1, 0, 0, 0xff, 0xff, 0, 0)
+	return totalGtabWrap(6, st)
+}
+
 // ---------------------------------------------------------------- mutations
 
 func totalMutate(r *Rng, b []byte) ([]byte, string) {
@@ -2611,6 +2692,10 @@ func areaTotal(c *Ctx) {
 		adv(fmt.Sprintf("kind=loca-straddle fmt=0 j=%d", j))
 		adv(fmt.Sprintf("kind=loca-straddle fmt=1 j=%d", j))
 	}
+	adv("kind=scriptlist-alias s=3 l=4 f=5 acc=0")
+	adv("kind=gsub81-alias nb=1 nl=1 acc=0")
+	adv("kind=gpos21-alias k=20 acc=0")
+	adv("kind=chain3-alias k=1 acc=0")
 	adv("kind=gdef-alias sets=20 acc=0")
 	adv("kind=gdef-alias sets=2000 acc=0")
 	adv("kind=gdef-distinct sets=2")
